@@ -13,7 +13,7 @@ cfg = `f<0|1>.e<0|1>.<thread>.<thread>…`, `x<0|1|2>` = the creator returns Ok 
 thread = `R` (requester), `K` (requester through the notifier
 clone the creator kept), `F0`/`F1` (`set_fast_reload`), `C0`/`C1` (`set_callback(|| b)`) or `Ac<cb>x<fails><script>` with
 script letters `r` (request_reload), `t`/`u` (set_fast_reload true/false); `f1` = fast reload switched on
-before any thread starts; `e1` = enumerate only schedules in which `request_reload` returns right after
+before any thread starts; `g0`/`g1` = like `f0`/`f1` but without any callback registered (`O=-`); `e1` = enumerate only schedules in which `request_reload` returns right after
 it set the flag (a reduction that loses no behaviour, see lib/props/c20.py).
 
 Output per schedule: `<cfg>\t<sched>\t<prediction>` with
@@ -24,6 +24,7 @@ open MJ.Reloader
 
 structure Cfg where
   fast : Bool
+  noCallbacks : Bool := false   -- `g0`/`g1`: no freshness / on_should_reload callback registered (O is not observable)
   eager : Bool
   threads : List Thread
   n : Nat            -- number of scheduled threads (without the fast-switching helper)
@@ -56,10 +57,11 @@ def parseCfg (s : String) : Option Cfg :=
   match s.splitOn "." with
   | f :: e :: ths =>
     let ts := ths.map parseThread
-    if ts.all Option.isSome && (f == "f0" || f == "f1") && (e == "e0" || e == "e1") then
+    if ts.all Option.isSome && (f == "f0" || f == "f1" || f == "g0" || f == "g1") && (e == "e0" || e == "e1") then
       let ts := ts.filterMap id
-      some { fast := f == "f1", eager := e == "e1", n := ts.length,
-             threads := if f == "f1" then ts ++ [.fastIdle true] else ts }
+      let fast := f == "f1" || f == "g1"
+      some { fast := fast, noCallbacks := f == "g0" || f == "g1", eager := e == "e1", n := ts.length,
+             threads := if fast then ts ++ [.fastIdle true] else ts }
     else none
   | _ => none
 
@@ -70,7 +72,8 @@ def initState (c : Cfg) : State :=
 def code : String → String
   | "BeforeCheck" => "Q" | "BeforeRemark" => "F"
   | "AfterCheck" => "K" | "AfterReset" => "Z" | "BeforeCreate" => "B" | "AfterCreate" => "C"
-  | "BeforeSet" => "S" | "AfterSet" => "T" | "Holding" => "H" | "Done" => "D" | _ => "?"
+  | "BeforeSet" => "S" | "AfterSet" => "T" | "Holding" => "H" | "Done" => "D"
+  | "AfterClear" => "E" | _ => "?"
 
 /-- scheduling reductions (symmetry of identical threads; eager return) -/
 def allowed (c : Cfg) (σ : State) (i : Nat) : Bool :=
@@ -131,7 +134,7 @@ def finish (c : Cfg) (σ : State) (a : Trk) : String :=
   let alldone := (List.range c.n).all fun i => match σ.threads[i]? with
     | some .acqDone | some .reqDone | some .fastDone | some .cbDone => true | _ => false
   if alldone then
-    s!"P={",".intercalate a.points.reverse}|A={",".intercalate acq}|G={",".intercalate a.builds.reverse}|C={σ.creates}|O={σ.onCalls}"
+    s!"P={",".intercalate a.points.reverse}|A={",".intercalate acq}|G={",".intercalate a.builds.reverse}|C={σ.creates}|O={if c.noCallbacks then "-" else toString σ.onCalls}"
   else "bad:model-deadlock"
 
 partial def dfs (c : Cfg) (σ : State) (a : Trk) (emit : String → String → IO Unit) : IO Unit := do
@@ -165,8 +168,50 @@ def replay (c : Cfg) (sched : List Nat) : String := Id.run do
     | none => return s!"bad:thread-{i}-not-enabled-at-step-{a.sched.length}"
   return finish c σ a
 
+/-! ### the fs watcher's lifetime: sequential operation sequences (`wfs <site> <ops>`)
+ops (comma separated): `P0|P1` persistent_watch, `F0|F1` set_fast_reload, `W` watch_path from outside,
+`A` acquire, `R` request_reload + acquire, `X` one file change (= a request iff the model is watching)
++ acquire; site `c`: every creator call registers the path, `o`: it does not.  Every operation is a
+thread of the model that runs to its end before the next one starts. -/
+
+def runToEnd (σ : State) (i : Nat) : State := Id.run do
+  let mut σ := σ
+  for _ in [0:64] do
+    match step σ i with
+    | some σ' => σ := σ'
+    | none => break
+  return σ
+
+def wfsPredict (site : String) (ops : List String) : String := Id.run do
+  let acfg : AcqCfg := { script := if site == "c" then [.watch] else [] }
+  -- threads: 0 = the first acquire; then per op
+  let mut ths : List Thread := [.acqIdle acfg]
+  for op in ops do
+    ths := ths ++ (match op with
+      | "P0" => [.persistIdle false] | "P1" => [.persistIdle true]
+      | "F0" => [.fastIdle false] | "F1" => [.fastIdle true]
+      | "W" => [.watchIdle] | "A" => [.acqIdle acfg]
+      | "R" => [.reqIdle, .acqIdle acfg] | "X" => [.reqIdle, .acqIdle acfg]
+      | _ => [])
+  let mut σ := runToEnd (init ths) 0
+  let mut i := 1
+  let mut res := ""
+  for op in ops do
+    match op with
+    | "R" => σ := runToEnd (runToEnd σ i) (i + 1); i := i + 2
+    | "X" =>
+      if σ.watching then
+        res := res ++ "n"; σ := runToEnd σ i
+      else
+        res := res ++ "-"
+      σ := runToEnd σ (i + 1); i := i + 2
+    | "P0" | "P1" | "F0" | "F1" | "W" | "A" => σ := runToEnd σ i; i := i + 1
+    | _ => res := res ++ "?"
+  return s!"{res}|C={σ.creates}"
+
 def handle (line : String) (out : IO.FS.Stream) : IO Unit := do
   match line.trimAscii.toString.splitOn " " with
+  | ["wfs", site, ops] => out.putStrLn s!"wfs\t{site}\t{ops}\t{wfsPredict site (ops.splitOn ",")}"
   | cfgS :: mode =>
     match parseCfg cfgS with
     | none => out.putStrLn s!"{cfgS}\t-\tbad:cfg"
